@@ -8,6 +8,7 @@ package main
 
 import (
 	"context"
+	"errors"
 	"fmt"
 	"net"
 	"sort"
@@ -15,6 +16,7 @@ import (
 	"sync"
 	"time"
 
+	"go.sia.tech/coreutils/threadgroup"
 	"verif/harness/internal/rng"
 )
 
@@ -36,6 +38,7 @@ type scen struct {
 	trace   []string
 	emitted map[uint64]bool // drop already logged
 
+	noTrace bool        // the closing part of the log is not a determined linearisation
 	peakSub map[int]int // highest number of running handlers per subnet since the phase began
 
 	steps []string // human readable script, for the replay file
@@ -467,38 +470,122 @@ func (sc *scen) observe() (in, out, live int) {
 
 // ------------------------------------------------------------ shutdown of the syncer
 
+// Ways in which Close is reached.
+const (
+	closePlain         = 0 // Close on a running syncer
+	closeListenerFirst = 1 // the owner of the listener closed it before calling Close
+	closeRunFailed     = 2 // Run began to shut down by itself (ChainManager.History failed in the sync loop)
+	closeTwice         = 3 // a second Close while the first is still waiting
+)
+
+var closeModeName = []string{"Close", "listener closed by its owner, then Close", "Run failed by itself (History error), then Close", "Close twice at once"}
+
 // closeSyncer calls Close at this moment (handlers may be held, requests may be blocked),
 // checks that it waits for the handlers, releases them, and checks what is left behind.
-func (sc *scen) closeSyncer(what string) {
+func (sc *scen) closeSyncer(what string, mode int) {
 	tb := sc.tb
 	held := sc.liveHandlers()
-	sc.stepf("%s: Close with %d handlers inside the chain manager", what, len(held))
+	sc.stepf("%s: %s, with %d handlers inside the chain manager", what, closeModeName[mode], len(held))
+	tornDown := false
+	if mode == closeListenerFirst || mode == closeRunFailed {
+		if mode == closeListenerFirst {
+			tb.l.Close()
+		} else if tb.histGate != nil {
+			select {
+			case <-tb.histGate:
+			default:
+				close(tb.histGate)
+			}
+		}
+		// Run notices (accept error / sync loop error), closes the listener and the peers and then
+		// waits for its other loops, which only end when the thread group is stopped
+		ok := tb.waitFor(settleTimeout, func() bool {
+			if len(tb.s.Peers()) != 0 {
+				return false
+			}
+			d, err := net.DialTimeout("tcp", tb.l.Addr().String(), time.Second)
+			if err == nil {
+				d.Close()
+				return false
+			}
+			return true
+		})
+		if !ok {
+			sc.failf("syncer-run-teardown-incomplete", "%s: %v after %s the listener is still open or %d peers are still listed", what, settleTimeout, closeModeName[mode], len(tb.s.Peers()))
+			return
+		}
+		tb.mu.Lock()
+		for _, ri := range tb.rpcs {
+			if !ri.resolved() {
+				sc.noTrace = true // a loop was blocked on its channel when its peer was closed: order not observable
+			}
+		}
+		for _, p := range sc.peers {
+			sc.emit(fmt.Sprintf("LPeerErr %d", p.id), fmt.Sprintf("LLoopExit %d", p.id), fmt.Sprintf("LPeerRemove %d", p.id))
+		}
+		stillIn := tb.live
+		tb.mu.Unlock()
+		tornDown = true
+		if stillIn != len(held) {
+			sc.noTrace = true
+		}
+		select {
+		case <-tb.runDone:
+			// Run may only return once the group is stopped (its peer loop ends with the group's context)
+			sc.noTrace = true
+			tb.runDone <- nil
+		default:
+		}
+	}
 	sc.emitL("LStopBegin")
 	closed := make(chan error, 1)
 	t0 := time.Now()
 	go func() { closed <- tb.s.Close() }()
+	var closed2 chan error
+	if mode == closeTwice {
+		closed2 = make(chan error, 1)
+		go func() {
+			time.Sleep(time.Duration(sc.r.Intn(300)) * time.Microsecond)
+			closed2 <- tb.s.Close()
+		}()
+	}
 
 	returnedEarly := false
 	if len(held) > 0 {
 		// Run's teardown closes the peers; Close itself has to wait for the handlers
-		select {
-		case <-closed:
-			returnedEarly = true
+		early := func(which string) {
 			tb.mu.Lock()
 			stillIn := tb.live
 			tb.mu.Unlock()
 			if stillIn > 0 {
-				sc.failf("syncer-close-returned-with-live-handlers", "%s: Close returned after %v while %d RPC handlers were still inside the chain manager", what, time.Since(t0), stillIn)
+				sc.failf("syncer-close-returned-with-live-handlers", "%s (%s): %s returned after %v while %d RPC handlers were still inside the chain manager", what, closeModeName[mode], which, time.Since(t0), stillIn)
 			}
-		case <-time.After(30 * time.Millisecond):
+		}
+		timer := time.After(30 * time.Millisecond)
+	wait:
+		for {
+			select {
+			case <-closed:
+				returnedEarly = true
+				early("Close")
+				break wait
+			case err := <-closed2:
+				early("the second Close")
+				closed2 <- err
+				break wait
+			case <-timer:
+				break wait
+			}
 		}
 	}
 	// the loops leave: blocked ones through <-tg.Done(), idle ones because Run closed the peers
-	tb.mu.Lock()
-	for _, p := range sc.peers {
-		sc.emit(fmt.Sprintf("LPeerErr %d", p.id), fmt.Sprintf("LLoopExit %d", p.id))
+	if !tornDown {
+		tb.mu.Lock()
+		for _, p := range sc.peers {
+			sc.emit(fmt.Sprintf("LPeerErr %d", p.id), fmt.Sprintf("LLoopExit %d", p.id))
+		}
+		tb.mu.Unlock()
 	}
-	tb.mu.Unlock()
 	tb.openAll()
 	if !returnedEarly {
 		select {
@@ -510,10 +597,28 @@ func (sc *scen) closeSyncer(what string) {
 	}
 	tb.mu.Lock()
 	sc.emit("LStopReturn")
-	for _, p := range sc.peers {
-		sc.emit(fmt.Sprintf("LPeerRemove %d", p.id))
+	if !tornDown {
+		for _, p := range sc.peers {
+			sc.emit(fmt.Sprintf("LPeerRemove %d", p.id))
+		}
 	}
 	tb.mu.Unlock()
+	// a second Close that ran beside the first, and one more afterwards, return as well
+	for i, ch := range []chan error{closed2, nil} {
+		if i == 0 && ch == nil {
+			continue
+		}
+		if ch == nil {
+			ch = make(chan error, 1)
+			go func() { ch <- tb.s.Close() }()
+		}
+		select {
+		case <-ch:
+		case <-time.After(settleTimeout):
+			sc.failf("syncer-close-deadlock", "%s: a repeated Close did not return within %v", what, settleTimeout)
+			return
+		}
+	}
 	select {
 	case <-tb.runDone:
 	case <-time.After(settleTimeout):
@@ -533,8 +638,11 @@ func (sc *scen) closeSyncer(what string) {
 	tb.onSend = nil
 	tb.mu.Unlock()
 	ctx, cancel := context.WithTimeout(context.Background(), 2*time.Second)
-	if _, err := tb.s.Connect(ctx, tb.l.Addr().String()); err == nil {
-		sc.failf("syncer-connect-after-close-accepted", "%s: Connect after Close returned no error", what)
+	if p, err := tb.s.Connect(ctx, tb.sinkAddr()); err == nil {
+		sc.failf("syncer-connect-after-close-accepted", "%s (%s): Connect to a reachable peer after Close returned no error; the syncer now lists %d peers", what, closeModeName[mode], len(tb.s.Peers()))
+		p.Close()
+	} else if !errors.Is(err, threadgroup.ErrClosed) {
+		sc.notes["connect-after-close-other-error"]++
 	}
 	cancel()
 	for _, p := range sc.peers {
@@ -560,6 +668,13 @@ func (sc *scen) closeSyncer(what string) {
 
 func (sc *scen) cleanup() {
 	sc.tb.openAll()
+	if sc.tb.histGate != nil {
+		select {
+		case <-sc.tb.histGate:
+		default:
+			close(sc.tb.histGate)
+		}
+	}
 	for _, p := range sc.all {
 		p.close()
 	}
@@ -570,6 +685,9 @@ func (sc *scen) cleanup() {
 	case <-time.After(5 * time.Second):
 	}
 	sc.tb.l.Close()
+	if sc.tb.sink != nil {
+		sc.tb.sink.Close()
+	}
 }
 
 func (sc *scen) coqConfig() string {
